@@ -106,7 +106,8 @@ class FilReader(Filterbank):
             msg = f"requested block is out of range: start={start}, nsamps={nsamps}"
             raise ValueError(msg)
 
-        self._file.seek(start * self.samp_stride)
+        # Byte offsets need Python integers: a 32-bit numpy scalar wraps beyond 2 GiB
+        self._file.seek(int(start) * self.samp_stride)
         data = self._file.cread(self.header.nchans * nsamps)
         nsamps_read = data.size // self.header.nchans
         data = data.reshape(nsamps_read, self.header.nchans).transpose()
@@ -198,7 +199,7 @@ class FilReader(Filterbank):
             unpack_buffer = None
             data = np.frombuffer(read_buffer, dtype=self.bitsinfo.dtype)
 
-        self._file.seek(start * self.samp_stride)
+        self._file.seek(int(start) * self.samp_stride)
         # Full blocks advance by (gulp - skipback) and must end within the range
         nreads = (nsamps - skipback) // (gulp - skipback)
         lastread = nsamps - (nreads * (gulp - skipback))
